@@ -27,6 +27,21 @@ func selString(e ast.Expr) string {
 	return ""
 }
 
+// exprString renders selector chains and calls without arguments ("s.LocalAddr()"); "?" for
+// anything else.
+func exprString(e ast.Expr) string {
+	if c, ok := e.(*ast.CallExpr); ok && len(c.Args) == 0 {
+		if f := selString(c.Fun); f != "" {
+			return f + "()"
+		}
+		return "?"
+	}
+	if s := selString(e); s != "" {
+		return s
+	}
+	return "?"
+}
+
 func isCall(e ast.Expr, suffix string) bool {
 	c, ok := e.(*ast.CallExpr)
 	if !ok || len(c.Args) != 0 {
@@ -171,6 +186,9 @@ func mentionsNode(n ast.Node, suffix string) bool {
 	})
 	return found
 }
+
+// PackageVars is packageVars for the other properties' fact generators.
+func PackageVars(dir string) ([]string, error) { return packageVars(dir) }
 
 // packageVars lists the package-level variables of the non-test files of a directory.
 func packageVars(dir string) ([]string, error) {
@@ -359,6 +377,42 @@ func Facts(repo string) (string, error) {
 	} else {
 		fmt.Fprintf(&sb, "def marshalGlobals : Option (List String) := some [%s]\n", strings.Join(mg, ", "))
 	}
+	// where the address the encoder stamps comes from: every assignment to the from field of a
+	// stanzaEncoder (assignment statements and composite literals), and what LocalAddr returns
+	var ef []string
+	localAddr := "none"
+	for _, fd := range fds {
+		if recvName(fd) == "stanzaEncoder" {
+			continue // the encoder reading its own field
+		}
+		if recvName(fd) == "Session" && fd.Name.Name == "LocalAddr" && len(fd.Body.List) == 1 {
+			if rs, ok := fd.Body.List[0].(*ast.ReturnStmt); ok && len(rs.Results) == 1 {
+				localAddr = "some " + strconv.Quote(exprString(rs.Results[0]))
+			}
+		}
+		ast.Inspect(fd.Body, func(n ast.Node) bool {
+			switch x := n.(type) {
+			case *ast.AssignStmt:
+				for i, l := range x.Lhs {
+					if se, ok := l.(*ast.SelectorExpr); ok && se.Sel.Name == "from" && i < len(x.Rhs) {
+						ef = append(ef, fmt.Sprintf("(%q, %q)", fd.Name.Name, exprString(x.Rhs[i])))
+					}
+				}
+			case *ast.CompositeLit:
+				if selString(x.Type) == "stanzaEncoder" {
+					for _, e := range x.Elts {
+						if kv, ok := e.(*ast.KeyValueExpr); ok && selString(kv.Key) == "from" {
+							ef = append(ef, fmt.Sprintf("(%q, %q)", fd.Name.Name, exprString(kv.Value)))
+						}
+					}
+				}
+			}
+			return true
+		})
+	}
+	sort.Strings(ef)
+	fmt.Fprintf(&sb, "/-- every assignment to the `from` field of a stanzaEncoder: function and assigned expression -/\ndef encoderFrom : Option (List (String × String)) := some [%s]\n", strings.Join(ef, ", "))
+	fmt.Fprintf(&sb, "/-- the expression `(*Session).LocalAddr` returns -/\ndef localAddrReturns : Option String := %s\n", localAddr)
 	fmt.Fprintf(&sb, "def tokenWriterLocks : Option Bool := %s\n", twLocks)
 	fmt.Fprintf(&sb, "def closeUnlocks : Option Bool := %s\n", closeUnlocks)
 	sb.WriteString("\nend XmppModel.Generated.C05\n")
